@@ -2,6 +2,8 @@ package checks
 
 import (
 	"fmt"
+	"strconv"
+	"strings"
 
 	lucene "github.com/grindlemire/go-lucene"
 	"github.com/grindlemire/go-lucene/pkg/lucene/expr"
@@ -41,6 +43,7 @@ func init() {
 				}
 			}
 			us = append(us, editUnits(tier)...)
+			us = append(us, frameUnits([]string{"cmp", "like", "bool"}, n+1)...)
 			return us
 		},
 		Run: func(w *core.Worker, tier, unit string) {
@@ -48,7 +51,7 @@ func init() {
 		},
 		Eval:   c10Eval,
 		Shrink: shrinkFlat,
-		Rule: "TOK(Σ_full,N) ∪ TOK(Σ_k,N_k) ∪ BYTES(B_lex,L) ∪ EDIT(1) of depth-1 trees, each x {no default field, default field D}; " +
+		Rule: "TOK(Σ_full,N) ∪ TOK(Σ_k,N_k) ∪ BYTES(B_lex,L) ∪ EDIT(1) of depth-1 trees ∪ FRAME(8 contexts x TOK(Σ_cmp/like/bool,N+1)), each x {no default field, default field D}; " +
 			"non-trivial = Parse accepted; distinct = distinct accepted trees (by %#v)",
 		Assumptions: []string{"inputs beyond the length bounds are not covered", "a panic is counted as skipped_upstream (C01 owns it)"},
 		Bounds: func(tier string) map[string]any {
@@ -255,6 +258,23 @@ func runFlat(w *core.Worker, unit string, dfs []core.BStr) {
 	})
 }
 
+// flatFrames: contexts in which a short token sequence is embedded, so that what is rejected (or
+// accepted) on its own is also seen as a comparison value, a field's value group, a range bound,
+// an operand of a prefix / suffix / binary operator.
+var flatFrames = []string{"a : > ( %s )", "a : ( %s )", "a : [ %s TO b ]", "NOT ( %s )", "( %s ) AND b", "b OR %s", "a : < = ( ( %s ) )", "+ ( %s ) ~ 2"}
+
+func frameUnits(alphas []string, n int) []core.Unit {
+	var us []core.Unit
+	for k := range flatFrames {
+		for _, a := range alphas {
+			for _, u := range enum.SeqUnits("tok", a, len(enum.Alphabets[a]), n, 1) {
+				us = append(us, core.Unit{Name: fmt.Sprintf("frame|%d|%s", k, u)})
+			}
+		}
+	}
+	return us
+}
+
 // forEachFlat enumerates the inputs of a flat unit (tok|..., bytes|..., edit|...).
 func forEachFlat(unit string, f func(kind, text string)) {
 	switch {
@@ -266,6 +286,11 @@ func forEachFlat(unit string, f func(kind, text string)) {
 		enum.EnumSeqUnit(unit, len(alpha), func(seq []int) { f("bytes", enum.Join(alpha, seq, "")) })
 	case len(unit) >= 5 && unit[:5] == "edit|":
 		enumEditUnit(unit, func(text string) { f("tok", text) })
+	case len(unit) >= 6 && unit[:6] == "frame|":
+		// "frame|<k>|<flat unit>": every input of the inner unit placed in context k
+		p := strings.SplitN(unit, "|", 3)
+		k, _ := strconv.Atoi(p[1])
+		forEachFlat(p[2], func(kind, text string) { f(kind, fmt.Sprintf(flatFrames[k], text)) })
 	default:
 		panic("bad flat unit " + unit)
 	}
